@@ -841,7 +841,10 @@ class ExprMixin:
 
         def f(it, s):
             saved = {n: s.env.get(n, missing) for n in targets}
-            out = self.comp_over(e, gen, self.unopt(s, it), s, kind)
+            it = self.unopt(s, it)
+            out = []
+            for s_split in self.split_presence(it, s):
+                out.extend(self.comp_over(e, gen, it, s_split, kind))
             for _, _, s_ in out:
                 for n, v in saved.items():
                     if v is missing:
@@ -863,10 +866,14 @@ class ExprMixin:
             if i == len(items):
                 if kind == "dict":
                     ent = {}
-                    for k, v in acc:
+                    for a_ in acc:
+                        k, v = a_[0], a_[1]
+                        present = a_[2] if len(a_) > 2 else T
                         if not is_concrete(k):
                             raise Unsupported("dict comprehension with symbolic key")
-                        ent[k] = (T, v)
+                        if k in ent and not (z3.is_true(present) and z3.is_true(ent[k][0])):
+                            raise Unsupported("dict comprehension: the same key produced twice under undecided filters")
+                        ent[k] = (present, v)
                     return [("val", s.alloc("dict", {"__kind__": "dict", "e": ent, "open": False}), s)]
                 return [("val", s.alloc(kind, {"__kind__": kind, "items": self.set_items([a[0] for a in acc], s) if kind == "set" else tuple(a[0] for a in acc)}), s)]
             outs = self.bind_target(gen.target, items[i], s)
@@ -877,6 +884,16 @@ class ExprMixin:
                 if gen.ifs:
                     def cond(vals, s2):
                         c = simp(z3.And([truth(s2, v) for v in vals]))
+                        if kind == "dict" and not z3.is_true(c) and not z3.is_false(c):
+                            # {k: v for ... if c}: instead of one path per filter outcome, the entry is PRESENT IFF c (the dictionary model carries a
+                            # presence condition per key) - sound when key and value are evaluated purely (one outcome, no event, nothing raised)
+                            probe = s2.fork()
+                            probe.assume(c)
+                            n_tr = len(probe.trace)
+                            pr = self.ev_seq(elts, probe)
+                            if len(pr) == 1 and pr[0][0] == "val" and len(pr[0][2].trace) == n_tr and is_concrete(pr[0][1][0]) and len(pr[0][2].pc) == len(s2.pc) + 1 \
+                                    and set(pr[0][2].heap) == set(s2.heap):
+                                return go(i + 1, s2, acc + ((pr[0][1][0], pr[0][1][1], c),))
                         o = []
                         for taken, s3 in self.branch(s2, c):
                             o.extend(body(s3) if taken else go(i + 1, s3, acc))
@@ -886,6 +903,37 @@ class ExprMixin:
                     res.extend(body(s1))
             return res
         return go(0, st, ())
+
+    def split_presence(self, it, st):
+        """A closed dictionary whose entries carry undecided presence conditions is about to be traversed: one state per combination of present /
+        absent entries (each with the dictionary rewritten to definite keys), so that the traversal sees a definite key sequence.  The case split
+        that a filtered comprehension avoided when the dictionary was built is made here, only where the keys are actually enumerated."""
+        if not isinstance(it, Ref):
+            return [st]
+        stor = st.get(it)
+        if stor.get("__kind__") != "dict" or stor.get("open"):
+            return [st]
+        maybe = [k for k, (p, _) in stor["e"].items() if not z3.is_true(simp(p))]
+        if not maybe:
+            return [st]
+        if len(maybe) > 8:
+            raise Unsupported("traversal of a dictionary with more than 8 maybe-present keys")
+        states = [st]
+        for k in maybe:
+            nxt = []
+            for s in states:
+                p = s.get(it)["e"][k][0]
+                for present, s2 in self.branch(s, p):
+                    cur = s2.get(it)
+                    e = dict(cur["e"])
+                    if present:
+                        e[k] = (T, e[k][1])
+                    else:
+                        del e[k]
+                    s2.put(it, dict(cur, e=e))
+                    nxt.append(s2)
+            states = nxt
+        return states
 
     def iter_items(self, it, st):
         """concrete sequence of element values of an iterable"""
